@@ -255,6 +255,7 @@ package inprocgrpc
 // ---- inProcessClientStream (C01, C03, C04, C05, C06, C08, C20) ----
 //
 //@ type inProcessClientStream
+//@   kept_alive_during[C01,C02,C04,C05] RecvMsg, SendMsg, Header, CloseSend
 //@   guarded_by respMu : state, last, headers, trailers
 //@   guarded_by reqMu : sendClosed
 //@   closes_under reqMu : requests
